@@ -57,7 +57,7 @@ func init() {
 	run.Register(&run.Def{
 		ID:          "C03",
 		Level:       "exploration",
-		Rule:        "bounded-exhaustive: every batch over an 8-entry per-document cell menu (field a: absent/{x}/{x,y}/{empty term}; field b: absent/{x,z(freq 0)}; b with or without doc values) for N<=3 (quick) / N<=4 (thorough) x doc-value chunk size (LegacyChunkMode) in {1,2,3,1024} x segment in {in-memory, mmap-opened, merged-and-opened} x field list in {[a],[a,b],[b,a,zz]} x EVERY visiting sequence of documents (with repetition) of length <= L (4 quick / 5 thorough) x visit-state discipline in {fresh per call, one state threaded, one state alternated between this segment and a second segment with the same field list but different content}; plus N=7 batches with ascending/descending/zig-zag orders. Oracle per call: multiset of callbacks == reference terms of (doc, field), one callback per term; VisitableDocValueFields == dv-indexed fields. Non-trivial = batch with >= 2 documents carrying doc values.",
+		Rule:        "bounded-exhaustive: every batch over a 10-entry per-document cell menu (field a: absent/{x}/{x,y}/{empty term}/present with doc values but no token; field b: absent/{x,z(freq 0)}; b with or without doc values) for N<=3 (quick) / N<=4 (thorough) x doc-value chunk size (LegacyChunkMode) in {1,2,3,1024} x segment in {in-memory, mmap-opened, merged-and-opened} x field list in {[a],[a,b],[b,a,zz]} x EVERY visiting sequence of documents (with repetition) of length <= L (4 quick / 5 thorough) x visit-state discipline in {fresh per call, one state threaded, one state alternated between this segment and a second segment with the same field list but different content}; plus N=7 batches with ascending/descending/zig-zag orders. Oracle per call: multiset of callbacks == reference terms of (doc, field), one callback per term; VisitableDocValueFields == dv-indexed fields. Non-trivial = batch with >= 2 documents carrying doc values.",
 		Assumptions: append([]string{"doc-value terms contain no 0xff byte (bleve's term separator)"}, batchAssumptions...),
 		Bounds:      map[string]string{"quick": "N<=3, sequences of length<=4, 3 segment kinds, 3 state disciplines", "thorough": "N<=4 (L=4 for N=4, L=5 below), same"},
 		New:         func() interface{} { return &enum.DVCase{} },
@@ -129,6 +129,32 @@ func runC03(ci interface{}, a *run.Acc) {
 		}
 		got := append([]string(nil), fs...)
 		sort.Strings(got)
+		if t.name == "merged" {
+			// for a MERGED segment the properties only bound the list (DESIGN 6b.2): every
+			// field in which a document has doc-value terms is listed, nothing else than the
+			// input's doc-value fields is
+			in := map[string]bool{}
+			for _, f := range got {
+				in[f] = true
+			}
+			for f, docs := range exp.DV {
+				if len(docs) > 0 && !in[f] {
+					a.Violation("dvfields-mismatch", fmt.Sprintf("VisitableDocValueFields on %s = %q lacks %q, which has doc values\n%s", t.name, got, f, jsonStr(c)))
+					return
+				}
+			}
+			for _, f := range got {
+				ok := false
+				for _, e := range exp.DVFields {
+					ok = ok || e == f
+				}
+				if !ok {
+					a.Violation("dvfields-mismatch", fmt.Sprintf("VisitableDocValueFields on %s lists %q, which was not indexed with doc values (%q)\n%s", t.name, f, exp.DVFields, jsonStr(c)))
+					return
+				}
+			}
+			continue
+		}
 		if c.N > 0 && fmt.Sprint(got) != fmt.Sprint(exp.DVFields) && !(len(got) == 0 && len(exp.DVFields) == 0) {
 			a.Violation("dvfields-mismatch", fmt.Sprintf("VisitableDocValueFields on %s = %q, want %q\n%s", t.name, got, exp.DVFields, jsonStr(c)))
 			return
